@@ -146,10 +146,15 @@ func (te *TimerEntry) run(ctx context.Context) error {
 	select {
 	case <-t.C:
 		te.timers.c.Logf("Firing timer '%s'", te.Id)
-		te.timers.Emitter(ctx, te)
+		// Once it fires the timer is no longer pending: free
+		// the id before emitting, and remove only this entry
+		// (not one made under the same id in the meantime).
 		te.timers.Lock()
-		delete(te.timers.Map, te.Id)
+		if cur, have := te.timers.Map[te.Id]; have && cur == te {
+			delete(te.timers.Map, te.Id)
+		}
 		te.timers.Unlock()
+		te.timers.Emitter(ctx, te)
 		te.timers.c.Lock()
 		te.timers.changed()
 		te.timers.c.Unlock()
